@@ -3,6 +3,7 @@
 pub mod c01;
 pub mod c07;
 pub mod c09;
+pub mod c12;
 pub mod c17;
 pub mod common;
 pub mod tlsfix;
